@@ -34,6 +34,10 @@ class Construction:
     cpy._positional_fieldnames = list(self._positional_fieldnames)
     return cpy
 
+  def _validate_record_type_specific_info(self):
+    # the record type is not listed among the positional fields
+    self.validate_field("record_type")
+
   def _initialize_positional_fields(self, strings):
     """delayed, see #delayed_inizialize_positional_fields"""
     pass
